@@ -242,4 +242,8 @@ theorem inv_step (c : Cfg) (s s' : St) (o : Option Int) (e : Ev) (hI : Inv c s) 
     rw [commCopy_cur] at hr'
     cases hr'
 
+theorem initProc_other (s : St) (r r' : Nat) (h : r' ≠ r) : (initProc s r).region r' = s.region r' := by
+  funext off; simp [initProc, h]
+
+
 end SgVerif.C36.Seg
